@@ -15,7 +15,9 @@ subsumed, recursion is cut at depth 8) and classifies every CFG statement as
   `refresh_timeout`; a call whose inlined callee is state-changing.
   Constructor-bound callbacks (`self._delete_cb()`, `self._setproxyremote_cb()`,
   `self._update_cb()`) are resolved through one level of argument binding at
-  the `Registration(...)` call sites.
+  the `Registration(...)` call sites; the bound callable may be a closure, a
+  method / function, a functools.partial of one or a forwarding lambda
+  (`_kit_c20.callable_target`).
 * MAY-RAISE-4xx: an explicit `raise` of, or a call whose escape set contains,
   a subclass of `error.RenderableError` whose `code` is a 4.xx code, unless an
   enclosing handler of the same function catches it.
@@ -50,6 +52,7 @@ import ast
 from ..rulekit import *
 from ..norm import Normalizer, Poly
 from ..exc import EscapeAnalysis
+from . import _kit_c20 as K
 
 R = Rules(
     "C20",
@@ -71,7 +74,7 @@ R = Rules(
         "from the registration's current attributes; (f) update_params refuses ep, d and the reserved lookup "
         "parameters before any store.  Not decided: the passage of time, pagination arithmetic."
     ),
-    rule_text="effect-ordering on per-function CFGs with inlined callee summaries and escape sets, field ownership and pairing, dominance, polynomial normal forms, class-hierarchy facts",
+    rule_text="effect-ordering on per-function CFGs with inlined callee summaries and escape sets, field ownership and pairing, dominance, polynomial normal forms, class-hierarchy facts, partial evaluation of branch conditions under a key-presence assumption, freshness of mutated objects",
 )
 
 RDMOD = "aiocoap.cli.rd"
@@ -310,21 +313,40 @@ class Effects:
         return self._cb
 
     def func_value(self, fi, e):
-        """FuncInfo a function-valued expression denotes: nested def or self.method."""
-        if isinstance(e, ast.Name):
-            g = fi
-            while g is not None:
-                q = g.qn + ".<locals>." + e.id
-                if q in self.prog.funcs:
-                    return self.prog.funcs[q]
-                g = g.parent
-            q = fi.module.name + "." + e.id
-            return self.prog.funcs.get(q)
-        if isinstance(e, ast.Attribute) and chain(e.value) == "self":
-            oc = _owner_class(fi)
-            if oc:
-                return self.prog.lookup_method(oc, e.attr)
-        return None
+        """FuncInfo a function-valued expression denotes (K.callable_target: nested def, module function,
+        self.method, functools.partial, call-forwarding lambda, a local holding one of those)."""
+        r = K.callable_target(self.prog, fi, e)
+        if r is None or isinstance(r[0].node, ast.Lambda):
+            return None
+        return r[0]
+
+    def callback_bindings(self):
+        """attr name -> [(target FuncInfo, {target parameter: expression at the site}, site FuncInfo)] for the
+        Registration attributes bound to constructor parameters, per Registration(...) call site."""
+        out = {}
+        ci = self.prog.classes.get(REGQN)
+        init = ci.methods.get("__init__") if ci else None
+        if init is None:
+            return out
+        pn = params(init)
+        attr2param = {}
+        for n in walk_no_nested(init.node):
+            if isinstance(n, ast.Assign) and len(n.targets) == 1 and isinstance(n.targets[0], ast.Attribute) and chain(n.targets[0].value) == "self":
+                if isinstance(n.value, ast.Name) and n.value.id in pn and not writes_to_name(init.node, n.value.id):
+                    attr2param[n.targets[0].attr] = n.value.id
+        for fi in list(self.prog.funcs.values()):
+            if not _in_rd(fi):
+                continue
+            for call in calls_in(fi.node):
+                if not self.is_reg_ctor(fi, call):
+                    continue
+                bound = self.bind_args(call, pn)
+                for attr, p in attr2param.items():
+                    arg = bound.get(p)
+                    r = K.callable_target(self.prog, fi, arg) if arg is not None else None
+                    if r is not None:
+                        out.setdefault(attr, []).append((r[0], r[1], fi))
+        return out
 
     @staticmethod
     def bind_args(call, pnames):
@@ -718,6 +740,19 @@ def _entries(prog):
     return sorted(out, key=lambda f: f.qn)
 
 
+def _is_index_read(fi, v):
+    """v reads an element of _by_key / _by_path: `T[k]`, `T.get(k[, None])` (T possibly through a local)."""
+    t = None
+    if isinstance(v, ast.Subscript) and not isinstance(v.slice, ast.Slice):
+        t = v.value
+    elif isinstance(v, ast.Call) and isinstance(v.func, ast.Attribute) and v.func.attr == "get" and not v.keywords and \
+            (len(v.args) == 1 or (len(v.args) == 2 and isinstance(v.args[1], ast.Constant) and v.args[1].value is None)):
+        t = v.func.value
+    if isinstance(t, ast.Name):
+        t = resolve_local(fi.node, t)
+    return t is not None and _table_of(t) in INDEXES
+
+
 def _check_published_premise(ctx):
     """Every RegistrationResource(x) passes a registration read from the index tables."""
     prog = ctx.prog
@@ -746,9 +781,9 @@ def _check_published_premise(ctx):
                     cfg = cfg_of(fi)
                     nid = cfg.loc1(call)
                     defs = reaching_defs(fi, arg.id, nid)
-                    ok = bool(defs) and all(isinstance(w, ast.Assign) and isinstance(w.value, ast.Subscript) and _table_of(w.value.value) in INDEXES for w in defs)
-                elif isinstance(arg, ast.Subscript):
-                    ok = _table_of(arg.value) in INDEXES
+                    ok = bool(defs) and all(isinstance(w, ast.Assign) and _is_index_read(fi, w.value) for w in defs)
+                elif arg is not None:
+                    ok = _is_index_read(fi, arg)
                 ctx.need(ok, "RegistrationResource(...) in %s is built from a value that is not read from _by_path/_by_key: the 'self.reg is published' premise of C20.a does not hold" % fi.short)
     ctx.need(sites >= 1, "no construction site of RegistrationResource found")
     return sites
@@ -809,8 +844,11 @@ def _index_ops(fi, field):
     """([(node, key, value)] insertions, [(node, key)] removals, [other stores]) on <x>.<field> in fi."""
     ins, rem, other = [], [], []
     for kind, n in stores_to_any(fi.node, field):
-        if kind == "setitem" and isinstance(n, ast.Assign) and len(n.targets) == 1 and isinstance(n.targets[0], ast.Subscript) and _table_of(n.targets[0].value) == field:
-            ins.append((n, n.targets[0].slice, n.value))
+        if kind == "setitem" and isinstance(n, ast.Assign) and any(isinstance(t, ast.Subscript) and _table_of(t.value) == field for t in n.targets):
+            # `T[k] = v`, also as one target of a chained assignment `T[k] = U[p] = v`
+            for t in n.targets:
+                if isinstance(t, ast.Subscript) and _table_of(t.value) == field:
+                    ins.append((n, t.slice, n.value))
         elif kind == "delitem" and isinstance(n, ast.Delete):
             for t in n.targets:
                 if isinstance(t, ast.Subscript) and _table_of(t.value) == field:
@@ -874,27 +912,51 @@ def b(ctx):
     ctx.floor("insertions into the index tables", n_ins, 2)
     ctx.floor("removals from the index tables", n_rem, 2)
 
-    # the delete callback handed to the registration removes exactly what initialize_endpoint inserted
+    # the delete callback handed to the registration removes exactly what the constructing function inserted.
+    # The callback may be a closure, a method / function bound with functools.partial or a forwarding lambda:
+    # its removal keys are mapped into the scope of the Registration(...) site (closure variable, or parameter
+    # bound there) and compared, after resolution through single-assignment locals, with the insertion keys.
     E = Effects(ctx)
-    cbs = E.callbacks()
-    dels = cbs.get("_delete_cb", [])
+    dels = E.callback_bindings().get("_delete_cb", [])
     ctx.floor("delete callbacks bound at Registration(...) sites", len(dels), 1)
-    for dfi in dels:
-        outer = dfi.parent
-        ctx.need(outer is not None, "delete callback %s is not a closure" % dfi.short)
+    for dfi, binding, outer in dels:
         ocfg = cfg_of(outer)
+        is_closure = dfi.parent is outer or (dfi.parent is not None and dfi.parent.parent is outer)
+        dparams = set(K.all_params(dfi)) if not isinstance(dfi.node, ast.Lambda) else {x.arg for x in dfi.node.args.posonlyargs + dfi.node.args.args + dfi.node.args.kwonlyargs}
         for f in INDEXES:
             ins, _, _ = _index_ops(outer, f)
             _, rem, _ = _index_ops(dfi, f)
             ctx.ob("the delete callback removes the registration from %s" % f, bool(rem), dfi, dfi.node, construct="%s: removal from %s" % (dfi.name, f))
             for n, key in rem:
-                ok = bool(ins) and isinstance(key, ast.Name) and not writes_to_name(dfi.node, key.id) and key.id not in params(dfi, skip_self=False) \
-                    and all(isinstance(k2, ast.Name) and k2.id == key.id for _, k2, _ in ins)
-                stable = ok and not any(wn in ocfg.reach({ocfg.loc1(i)}) for i, _, _ in ins for w in writes_to_name(outer.node, key.id) for wn in ocfg.locate(w))
+                site_key = None
+                if isinstance(key, ast.Name) and not (not isinstance(dfi.node, ast.Lambda) and writes_to_name(dfi.node, key.id)):
+                    if key.id in dparams:
+                        site_key = binding.get(key.id)
+                        if site_key is None and dfi.parent is outer:
+                            site_key = _param_default(dfi, key.id)  # default-argument binding, evaluated in the site's scope
+                    elif is_closure:
+                        site_key = key
+                elif not isinstance(key, ast.Name) and is_closure and not (names_in(key) & dparams):
+                    site_key = key  # an expression over closure variables
+                ok = bool(ins) and site_key is not None and all(dump(resolve_local(outer.node, k2)) == dump(resolve_local(outer.node, site_key)) for _, k2, _ in ins)
+                stable = ok and not any(wn in ocfg.reach({ocfg.loc1(i)}) for i, _, _ in ins for nm in names_in(site_key) | {x for _, k2, _ in ins for x in names_in(k2)}
+                                        for w in writes_to_name(outer.node, nm) for wn in ocfg.locate(w))
                 ctx.ob("the delete callback removes from %s the very key the registration was inserted under" % f, ok and stable, dfi, n,
-                       detail="removal key %s; insertion key(s) %s" % (stmt_text(key, 40), [stmt_text(k2, 40) for _, k2, _ in ins]))
+                       detail="removal key %s -> %s at the site; insertion key(s) %s" % (stmt_text(key, 40), stmt_text(site_key, 40) if site_key is not None else "?", [stmt_text(k2, 40) for _, k2, _ in ins]))
     ctx.ob("Registration.delete runs the delete callback on every normal path", _delete_runs_cb(prog), prog.func("cli.rd.CommonRD.Registration.delete"), None,
            construct="Registration.delete -> self._delete_cb()")
+
+
+def _param_default(fi, name):
+    a = fi.node.args
+    pos = a.posonlyargs + a.args
+    for p, d in zip(pos[len(pos) - len(a.defaults):], a.defaults):
+        if p.arg == name:
+            return d
+    for p, d in zip(a.kwonlyargs, a.kw_defaults):
+        if p.arg == name and d is not None:
+            return d
+    return None
 
 
 def _delete_runs_cb(prog):
@@ -908,25 +970,183 @@ def _delete_runs_cb(prog):
 # C20.c
 
 
+def _value_alternatives(fi, name):
+    """[(value expression, defining statement, [(test, polarity)] conditional-expression conditions)] for
+    every plain assignment of local `name`; None when the local is bound in another way.  Both arms of a
+    conditional expression are separate alternatives."""
+    out = []
+
+    def arms(v, w, conds):
+        if isinstance(v, ast.IfExp):
+            arms(v.body, w, conds + [(v.test, True)])
+            arms(v.orelse, w, conds + [(v.test, False)])
+        else:
+            out.append((v, w, conds))
+
+    for w in writes_to_name(fi.node, name):
+        if not (isinstance(w, ast.Assign) and len(w.targets) == 1 and isinstance(w.targets[0], ast.Name)):
+            return None
+        arms(w.value, w, [])
+    return out
+
+
+def _by_key_read(fi, v, keys):
+    """v reads, from <x>._by_key, the entry of the key the registration is inserted under:
+    `T[K]`, `T.get(K)`, `T.get(K, None)` (T possibly a single-assignment alias).  -> 'item' | 'get' | None"""
+    k = kind = None
+    t = None
+    if isinstance(v, ast.Subscript) and not isinstance(v.slice, ast.Slice):
+        t, k, kind = v.value, v.slice, "item"
+    elif isinstance(v, ast.Call) and isinstance(v.func, ast.Attribute) and v.func.attr == "get" and not v.keywords and \
+            (len(v.args) == 1 or (len(v.args) == 2 and isinstance(v.args[1], ast.Constant) and v.args[1].value is None)):
+        t, k, kind = v.func.value, v.args[0], "get"
+    if t is None:
+        return None
+    if isinstance(t, ast.Name):
+        t = resolve_local(fi.node, t)
+    if _table_of(t) != "_by_key":
+        return None
+    return kind if dump(resolve_local(fi.node, k)) in keys else None
+
+
+def _keyerror_handlers(fi, cfg, keys):
+    """CFG handler nodes that run exactly when `<x>._by_key[K]` raised KeyError (K the insertion key)."""
+    out = []
+    for t in [n for n in walk_no_nested(fi.node) if isinstance(n, ast.Try)]:
+        reads = [s for b in t.body for s in walk_no_nested(b) if isinstance(s, ast.Subscript) and _by_key_read(fi, s, keys) == "item"]
+        if not reads:
+            continue
+        for h in t.handlers:
+            names = [chain(x) for x in ((h.type.elts if isinstance(h.type, ast.Tuple) else [h.type]) if h.type is not None else [])]
+            if "KeyError" in names or "LookupError" in names:
+                out.extend(cfg.locate(h))
+    return out
+
+
+def _is_none_means_absent(prog, fi, cfg, o, at, keys, depth=0):
+    """`o is None` at CFG node `at` implies that no registration exists under the key: every definition
+    of o that reaches `at` is a `.get(K)` of _by_key, a `_by_key[K]` read (never None: only constructed
+    registrations are inserted), or the constant None assigned where no registration exists (KeyError
+    handler of such a read, `K not in _by_key` branch, ...)."""
+    if not isinstance(o, ast.Name):
+        return _by_key_read(fi, o, keys) == "get"
+    defs = reaching_defs(fi, o.id, at)
+    if not defs or o.id in params(fi) or depth > 2:
+        return False
+    for w in defs:
+        if not (isinstance(w, ast.Assign) and len(w.targets) == 1 and isinstance(w.targets[0], ast.Name)):
+            return False
+        if _by_key_read(fi, w.value, keys):
+            continue
+        if isinstance(w.value, ast.Constant) and w.value.value is None and _no_existing_k(prog, fi, cfg, cfg.loc1(w), keys, (), depth + 1):
+            continue
+        return False
+    return True
+
+
+def _absence_fact(prog, fi, cfg, e, pol, at, keys, depth=0):
+    """Atomic condition e having truth value pol (evaluated at CFG node `at`) implies that no registration
+    exists under the key: `K not in _by_key` / `<looked-up registration> is None` /
+    `not <looked-up registration>`, in any spelling."""
+    a = K.absent_test(fi, e, "self._by_key")
+    if a is not None:
+        return a[1] == pol and dump(resolve_local(fi.node, a[0])) in keys
+    while isinstance(e, ast.UnaryOp) and isinstance(e.op, ast.Not):
+        e, pol = e.operand, not pol
+    o = None
+    if isinstance(e, ast.Compare) and len(e.ops) == 1 and isinstance(e.ops[0], (ast.Is, ast.IsNot, ast.Eq, ast.NotEq)):
+        l, r = e.left, e.comparators[0]
+        if isinstance(r, ast.Constant) and r.value is None:
+            o = l
+        elif isinstance(l, ast.Constant) and l.value is None:
+            o = r
+        if o is not None and pol != isinstance(e.ops[0], (ast.Is, ast.Eq)):
+            o = None
+    elif isinstance(e, (ast.Name, ast.Call)) and not pol:
+        # `not old`: registrations are always truthy (the class defines no __bool__/__len__)
+        if not any(prog.lookup_method(REGQN, m) is not None for m in ("__bool__", "__len__")):
+            o = e
+    return o is not None and _is_none_means_absent(prog, fi, cfg, o, at, keys, depth)
+
+
+def _no_existing_k(prog, fi, cfg, nid, keys, extra=(), depth=0):
+    if any(cfg.dominates(hn, nid) for hn in _keyerror_handlers(fi, cfg, keys)):
+        return True
+    facts = [(e, pol, cfg.locate(e)[0] if cfg.locate(e) else nid) for e, pol, _ in cfg.guards(nid)]
+    for e, pol in extra:
+        facts += [(a, p, nid) for a, p in K._conjuncts(e, pol)]
+    return any(_absence_fact(prog, fi, cfg, e, pol, at, keys, depth) for e, pol, at in facts)
+
+
+def _no_existing(prog, fi, cfg, nid, ins_k, extra=()):
+    """nid only executes (with the conditional-expression conditions `extra`) when no registration exists
+    under the key: it sits in a KeyError handler of a try that reads _by_key[key], or under a
+    `key not in _by_key` / `<looked-up registration> is None` / `not <looked-up registration>` condition
+    (any spelling; the looked-up registration may be defined on several paths)."""
+    keys = [dump(resolve_local(fi.node, k)) for _, k, _ in ins_k]
+    return _no_existing_k(prog, fi, cfg, nid, keys, extra)
+
+
+def _str_parts(e):
+    """Flatten a string-building expression into constant pieces and embedded expressions:
+    'a' + X, f'a{X}', 'a%s' % X, 'a{}'.format(X)  ->  ['a', dump(X)]; None when not understood."""
+    if isinstance(e, ast.Constant) and isinstance(e.value, str):
+        return [e.value] if e.value else []
+    if isinstance(e, ast.BinOp) and isinstance(e.op, ast.Add):
+        l, r = _str_parts(e.left), _str_parts(e.right)
+        return None if l is None or r is None else _merge(l + r)
+    if isinstance(e, ast.JoinedStr):
+        out = []
+        for v in e.values:
+            if isinstance(v, ast.Constant):
+                out.append(v.value)
+            elif isinstance(v, ast.FormattedValue) and v.conversion in (-1, 115) and v.format_spec is None:
+                out.append(("x", dump(v.value)))
+            else:
+                return None
+        return _merge(out)
+    tmpl = args = ph = None
+    if isinstance(e, ast.BinOp) and isinstance(e.op, ast.Mod) and isinstance(e.left, ast.Constant) and isinstance(e.left.value, str):
+        tmpl, ph = e.left.value, "%s"
+        args = list(e.right.elts) if isinstance(e.right, ast.Tuple) else [e.right]
+    elif isinstance(e, ast.Call) and isinstance(e.func, ast.Attribute) and e.func.attr == "format" and isinstance(e.func.value, ast.Constant) and isinstance(e.func.value.value, str) and not e.keywords:
+        tmpl, ph, args = e.func.value.value, "{}", list(e.args)
+    if tmpl is not None:
+        pieces = tmpl.split(ph)
+        if len(pieces) != len(args) + 1 or any("%" in x or "{" in x for x in pieces):
+            return None
+        out = []
+        for i, x in enumerate(pieces):
+            out.append(x)
+            if i < len(args):
+                out.append(("x", dump(args[i])))
+        return _merge(out)
+    return [("x", dump(e))]
+
+
+def _merge(parts):
+    out = []
+    for x in parts:
+        if x == "":
+            continue
+        if isinstance(x, str) and out and isinstance(out[-1], str):
+            out[-1] += x
+        else:
+            out.append(x)
+    return out
+
+
 @R.clause("C20.c", "fresh locations are unused, re-registration keeps its location, path = entity_prefix + tail, key = (ep, d)")
 def c(ctx):
     prog = ctx.prog
-    # _new_pathtail
+    # _new_pathtail: every returned value is known not to be a key of _by_path (K.unused_member: a
+    # dominating membership test in any spelling, or a value drawn from an iterable filtered by it)
     nf = prog.func("cli.rd.CommonRD._new_pathtail")
     cfg = cfg_of(nf)
     rets = [nd for nd in cfg.nodes if nd.kind == "return" and cfg.is_reachable(nd.id)]
     ctx.floor("returns of _new_pathtail", len(rets), 1)
     for nd in rets:
-        v = nd.ast.value
-        ok = False
-        if v is not None:
-            for e, pol, pid in cfg.guards(nd.id):
-                for pat, want in (("$v not in self._by_path", True), ("$v in self._by_path", False)):
-                    if pol == want and match(pat, e, {"v": v}) is not None:
-                        wr = [wn for nm in names_in(v) for w in writes_to_name(nf.node, nm) for wn in cfg.locate(w)]
-                        if all(cfg.dominates(wn, pid) and wn not in cfg.reach({pid}, avoid={cfg.locate(e)[0]} if cfg.locate(e) else ()) for wn in wr):
-                            ok = True
-        ctx.ob("_new_pathtail returns only a path that is not in _by_path", ok, nf, nd.ast)
+        ctx.ob("_new_pathtail returns only a path that is not in _by_path", K.unused_member(prog, nf, nd.ast, "self._by_path"), nf, nd.ast)
     ctx.ob("_new_pathtail cannot fall off its end", cfg.exit not in cfg.reach({cfg.entry}, avoid={nd.id for nd in rets} | _infinite_loop_exits(cfg), skip_labels=("exc",)), nf, nf.node, construct="_new_pathtail")
 
     ie = prog.func("cli.rd.CommonRD.initialize_endpoint")
@@ -939,6 +1159,7 @@ def c(ctx):
     pnames = params(ie)
     ctx.need(len(pnames) == 2, "initialize_endpoint signature changed")
     qparam = pnames[1]
+    keys = [dump(resolve_local(ie.node, k)) for _, k, _ in ins_k]
 
     # key = (ep, d)
     E = Effects(ctx)
@@ -951,65 +1172,97 @@ def c(ctx):
                 ev = resolve_local(ie.node, elt)
                 b = match("pop_single_arg($q, $name)", ev)
                 got.append(stmt_text(ev, 50))
-                ok = ok and b is not None and isinstance(b["q"], ast.Name) and b["q"].id == qparam and isinstance(b["name"], ast.Constant) and b["name"].value == want
+                qa = resolve_local(ie.node, b["q"]) if b is not None else None
+                nm = resolve_local(ie.node, b["name"]) if b is not None else None
+                ok = ok and b is not None and isinstance(qa, ast.Name) and qa.id == qparam and isinstance(nm, ast.Constant) and nm.value == want
         ctx.ob("the index key is the pair (ep, d) of the registration parameters", ok, ie, n, detail="key = %s -> %s" % (stmt_text(kv, 60), got))
         # the constructed registration is what is inserted
-        vdefs = reaching_defs(ie, val.id, icfg.loc1(n)) if isinstance(val, ast.Name) else []
-        okv = bool(vdefs) and all(isinstance(w, ast.Assign) and isinstance(w.value, ast.Call) and E.is_reg_ctor(ie, w.value) for w in vdefs)
+        if isinstance(val, ast.Name):
+            vdefs = reaching_defs(ie, val.id, icfg.loc1(n))
+            okv = bool(vdefs) and all(isinstance(w, ast.Assign) and isinstance(w.value, ast.Call) and E.is_reg_ctor(ie, w.value) for w in vdefs)
+        else:
+            okv = isinstance(val, ast.Call) and E.is_reg_ctor(ie, val)
         ctx.ob("the object inserted is the registration constructed for this request", okv, ie, n)
 
     # existing registration looked up under the same key
+    N = Normalizer(env=norm.local_env(ie.node))
+    want_lo = N.poly(ast.parse("len(self.entity_prefix)", mode="eval").body)
     for n, pkey, val in ins_p:
         ctx.need(isinstance(pkey, ast.Name), "the _by_path insertion key is not a local")
         P = pkey.id
-        defs = writes_to_name(ie.node, P)
-        ctx.floor("definitions of the location tail", len(defs), 2)
+        alts = _value_alternatives(ie, P)
+        ctx.need(alts is not None, "location tail defined by an unexpected statement")
+        ctx.floor("definitions of the location tail", len(alts), 2)
         reuse = 0
-        for w in defs:
-            v = w.value if isinstance(w, ast.Assign) and len(w.targets) == 1 else None
-            ctx.need(v is not None, "location tail defined by an unexpected statement")
+        for v, w, conds in alts:
             wn = icfg.loc1(w)
+            v = resolve_local(ie.node, v) if isinstance(v, ast.Name) else v
             if match("self._new_pathtail()", v) is not None:
-                ctx.ob("a fresh location is only allocated when no registration exists under the key", _no_existing(ie, icfg, wn, ins_k), ie, w)
+                ctx.ob("a fresh location is only allocated when no registration exists under the key", _no_existing(prog, ie, icfg, wn, ins_k, conds), ie, w,
+                       construct=stmt_text(w, 80) if not conds else "%s [arm %s]" % (stmt_text(w, 60), stmt_text(v, 30)))
                 continue
             b = match("$old.path[$lo:]", v)
             okr = False
-            if b is not None and isinstance(b["old"], ast.Name):
-                odefs = reaching_defs(ie, b["old"].id, wn)
-                okold = bool(odefs) and all(isinstance(o, ast.Assign) and _reads_by_key(ie, o.value, ins_k) for o in odefs)
-                oklo = match("len(self.entity_prefix)", b["lo"]) is not None
+            if b is not None:
+                old = b["old"]
+                if isinstance(old, ast.Name):
+                    # the constant None can never be the receiver of `.path` (AttributeError): only the other
+                    # definitions can flow into the tail
+                    odefs = [o for o in reaching_defs(ie, old.id, wn) if not (isinstance(o, ast.Assign) and isinstance(o.value, ast.Constant) and o.value.value is None)]
+                    okold = bool(odefs) and old.id not in pnames and all(isinstance(o, ast.Assign) and len(o.targets) == 1 and _by_key_read(ie, o.value, keys) for o in odefs)
+                else:
+                    okold = bool(_by_key_read(ie, old, keys))
+                try:
+                    oklo = N.poly(b["lo"]) == want_lo
+                except norm.NormError:
+                    oklo = False
                 okr = okold and oklo
             if okr:
                 reuse += 1
-            ctx.ob("a re-registration reuses the old registration's location tail (path minus entity_prefix)", okr, ie, w, detail="tail = %s" % stmt_text(v, 70))
+            ctx.ob("a re-registration reuses the old registration's location tail (path minus entity_prefix)", okr, ie, w, detail="tail = %s" % stmt_text(v, 70),
+                   construct=stmt_text(w, 80) if not conds else "%s [arm %s]" % (stmt_text(w, 60), stmt_text(v, 30)))
         ctx.ob("a re-registration keeps its location", reuse >= 1, ie, n, detail="%d definition(s) reuse oldreg.path" % reuse)
 
         # Registration(path=entity_prefix + tail)
         ri = prog.func("cli.rd.CommonRD.Registration.__init__")
         rp = params(ri)
+        st = [x for k, x in stores_to(ri.node, "self.path")]
+        okst = len(st) == 1 and isinstance(st[0], ast.Assign) and isinstance(st[0].value, ast.Name) and st[0].value.id in rp and not writes_to_name(ri.node, st[0].value.id)
+        ctx.ob("Registration stores the path it is given", okst, ri, st[0] if st else ri.node)
+        pparam = st[0].value.id if okst else "path"
         ctors = [cl for cl in calls_in(ie.node) if E.is_reg_ctor(ie, cl)]
         ctx.floor("Registration(...) constructions in initialize_endpoint", len(ctors), 1)
         for cl in ctors:
             bound = Effects.bind_args(cl, rp)
-            arg = bound.get("path")
-            okp = arg is not None and match("self.entity_prefix + %s" % P, resolve_local(ie.node, arg)) is not None
-            ctx.ob("the registration's path is entity_prefix + location tail", okp, ie, cl, detail="path argument: %s" % (stmt_text(arg, 60) if arg is not None else None),
+            arg = bound.get(pparam)
+            ctx.ob("the registration's path is entity_prefix + location tail", arg is not None and _is_prefix_plus(ie, arg, P), ie, cl, detail="path argument: %s" % (stmt_text(arg, 60) if arg is not None else None),
                    construct="Registration(path=%s)" % (stmt_text(arg, 60) if arg is not None else "?"))
-        st = [x for k, x in stores_to(ri.node, "self.path")]
-        ctx.ob("Registration stores the path it is given", len(st) == 1 and isinstance(st[0], ast.Assign) and isinstance(st[0].value, ast.Name) and st[0].value.id == "path"
-               and "path" in rp and not writes_to_name(ri.node, "path"), ri, st[0] if st else ri.node)
         others = [(f.short, x) for f in prog.funcs.values() if _in_rd(f) and f is not ri for k, x in stores_to_any(f.node, "path") if isinstance(x, (ast.Assign, ast.AugAssign)) and any(isinstance(t, ast.Attribute) for t in (x.targets if isinstance(x, ast.Assign) else [x.target]))]
         ctx.ob("a registration's path never changes after construction", not others, ri, None, construct="Registration.path", detail="; ".join(s for s, _ in others))
 
 
-def _reads_by_key(fi, v, ins_k):
-    """v is `<x>._by_key[K]` or `<x>._by_key.get(K)` with K the key the registration is inserted under."""
-    k = None
-    if isinstance(v, ast.Subscript) and _table_of(v.value) == "_by_key":
-        k = v.slice
-    elif isinstance(v, ast.Call) and isinstance(v.func, ast.Attribute) and v.func.attr == "get" and _table_of(v.func.value) == "_by_key" and len(v.args) == 1:
-        k = v.args[0]
-    return k is not None and any(dump(resolve_local(fi.node, k)) == dump(resolve_local(fi.node, k2)) for _, k2, _ in ins_k)
+def _is_prefix_plus(fi, arg, P):
+    """arg is self.entity_prefix followed by the location tail held in local P:
+    `self.entity_prefix + P`, `(*self.entity_prefix, *P)`, operands possibly through locals."""
+    e = resolve_local(fi.node, arg)
+    parts = None
+    if isinstance(e, ast.BinOp) and isinstance(e.op, ast.Add):
+        parts = [e.left, e.right]
+    elif isinstance(e, ast.Tuple) and len(e.elts) == 2 and all(isinstance(x, ast.Starred) for x in e.elts):
+        parts = [x.value for x in e.elts]
+    elif isinstance(e, ast.Call) and chain(e.func) == "tuple" and len(e.args) == 1:
+        return _is_prefix_plus(fi, e.args[0], P)
+    if parts is None:
+        return False
+    l, r = parts
+    l = resolve_local(fi.node, l)
+    if isinstance(l, ast.Call) and chain(l.func) == "tuple" and len(l.args) == 1:
+        l = l.args[0]
+    if chain(l) != "self.entity_prefix":
+        return False
+    if isinstance(r, ast.Call) and chain(r.func) == "tuple" and len(r.args) == 1:
+        r = r.args[0]
+    return isinstance(r, ast.Name) and r.id == P
 
 
 def _infinite_loop_exits(cfg):
@@ -1018,38 +1271,9 @@ def _infinite_loop_exits(cfg):
     for nd in cfg.nodes:
         if nd.kind == "F" and isinstance(nd.ast, (ast.For, ast.AsyncFor)):
             it = nd.ast.iter
-            if isinstance(it, ast.Call) and chain(it.func) in ("itertools.count", "count", "itertools.cycle", "itertools.repeat") and (chain(it.func) != "itertools.repeat" or len(it.args) == 1):
+            if isinstance(it, ast.Call) and (chain(it.func) or "").split(".")[-1] in ("count", "cycle", "repeat") and ((chain(it.func) or "").split(".")[-1] != "repeat" or len(it.args) == 1):
                 out.add(nd.id)
     return out
-
-
-def _no_existing(fi, cfg, nid, ins_k):
-    """nid only executes when no registration exists under the key: it sits in a KeyError handler of a
-    try that reads _by_key[key], or under a `key not in _by_key` / `<get result> is None` guard."""
-    keys = [dump(resolve_local(fi.node, k)) for _, k, _ in ins_k]
-    for t in [n for n in walk_no_nested(fi.node) if isinstance(n, ast.Try)]:
-        reads = [s for b in t.body for s in walk_no_nested(b) if isinstance(s, ast.Subscript) and _table_of(s.value) == "_by_key" and dump(resolve_local(fi.node, s.slice)) in keys]
-        if not reads:
-            continue
-        for h in t.handlers:
-            names = [chain(x) for x in ((h.type.elts if isinstance(h.type, ast.Tuple) else [h.type]) if h.type is not None else [])]
-            if "KeyError" in names or "LookupError" in names:
-                for hn in cfg.locate(h):
-                    if cfg.dominates(hn, nid):
-                        return True
-    for e, pol, _ in cfg.guards(nid):
-        for pat, want in (("$k not in self._by_key", True), ("$k in self._by_key", False)):
-            b = match(pat, e)
-            if b is not None and pol == want and dump(resolve_local(fi.node, b["k"])) in keys:
-                return True
-        for pat, want in (("$o is None", True), ("$o is not None", False)):
-            b = match(pat, e)
-            if b is not None and pol == want and isinstance(b["o"], ast.Name):
-                ov = assigned_value(fi.node, b["o"].id)
-                g = match("self._by_key.get($k)", ov) if ov is not None else None
-                if g is not None and dump(resolve_local(fi.node, g["k"])) in keys:
-                    return True
-    return False
 
 
 # ---------------------------------------------------------------------------
@@ -1066,7 +1290,7 @@ def d(ctx):
     arms = []
     for call in calls_in(sf.node):
         nm = chain(call.func) or ""
-        if nm.endswith("create_task") and call.args:
+        if (nm.endswith("create_task") or nm.endswith("ensure_future")) and call.args:
             coro = resolve_local(sf.node, call.args[0])
             arms.append((call, "task", coro))
         elif nm.endswith("call_later") and len(call.args) >= 2:
@@ -1081,23 +1305,40 @@ def d(ctx):
             ctx.ob("the timer waits lt + grace_period", okd, sf, call)
             ctx.ob("the timer fires Registration.delete", chain(call.args[1]) == "self.delete" and len(call.args) == 2, sf, call)
         else:
-            ok_shape = isinstance(coro, ast.Call) and isinstance(coro.func, ast.Name) and len(coro.args) == 2 and not coro.keywords
-            inner = prog.funcs.get(sf.qn + ".<locals>." + coro.func.id) if ok_shape else None
-            ctx.need(inner is not None, "_set_timeout: the task is not a call of a nested coroutine function with (delay, callback)")
-            try:
-                okd = N.poly(coro.args[0]) == want
-                got = repr(N.poly(coro.args[0]))
-            except norm.NormError:
-                okd, got = False, "?"
-            ctx.ob("the timer waits lt + grace_period", okd, sf, coro, detail="delay = %s" % got)
-            ctx.ob("the timer fires Registration.delete", chain(coro.args[1]) == "self.delete", sf, coro, detail="callback = %s" % stmt_text(coro.args[1], 40))
-            ip = params(inner, skip_self=False)
+            # the task runs a coroutine function of rd.py (closure, method or module function); what it sleeps
+            # for and what it calls afterwards are traced through its parameters to the arguments given here,
+            # so neither the parameter order nor keyword / closure-variable spelling matters
+            tgt = K.callable_target(prog, sf, coro.func) if isinstance(coro, ast.Call) else None
+            ctx.need(tgt is not None and not isinstance(tgt[0].node, ast.Lambda), "_set_timeout: the task is not a call of a coroutine function of rd.py")
+            inner, pre = tgt
+            bound = K.bind_call(coro, inner, inner.cls is not None and not K.is_static(inner))
+            ctx.need(bound is not None, "_set_timeout: star-arguments in the timer coroutine call")
+            bound = dict(pre, **bound)
+            ip = set(K.all_params(inner))
             icfg = cfg_of(inner)
-            sleeps = [c for c, _ in find("asyncio.sleep(%s)" % ip[0], inner.node)] if len(ip) == 2 else []
-            cbs = [c for c, _ in find("%s()" % ip[1], inner.node)] if len(ip) == 2 else []
-            oki = bool(sleeps) and bool(cbs) and inner.is_async and not writes_to_name(inner.node, ip[0]) and not writes_to_name(inner.node, ip[1]) \
-                and all(isinstance(icfg.parent.get(id(s)), ast.Await) for s in sleeps) \
-                and all(any(icfg.dominates(icfg.loc1(s), icfg.loc1(c)) and icfg.loc1(s) != icfg.loc1(c) for s in sleeps) for c in cbs) \
+
+            def at_site(x):
+                """expression of the coroutine body -> the expression it denotes at the call site"""
+                if isinstance(x, ast.Name) and x.id in ip and not writes_to_name(inner.node, x.id):
+                    return bound.get(x.id)
+                return x if not (names_in(x) & ip) else None
+
+            sleeps = [c for c in calls_in(inner.node) if (chain(c.func) or "").split(".")[-1] == "sleep" and len(c.args) == 1]
+            delays = [at_site(resolve_local(inner.node, c.args[0])) for c in sleeps]
+            okd, got = bool(sleeps), []
+            for dl in delays:
+                try:
+                    pv = N.poly(dl) if dl is not None else None
+                except norm.NormError:
+                    pv = None
+                got.append(repr(pv))
+                okd = okd and pv is not None and pv == want
+            ctx.ob("the timer waits lt + grace_period", okd, sf, coro, detail="delay = %s" % ", ".join(got))
+            cbs = [c for c in calls_in(inner.node) if not c.args and not c.keywords and chain(at_site(resolve_local(inner.node, c.func)) if not isinstance(c.func, ast.Attribute) else c.func) == "self.delete"]
+            ctx.ob("the timer fires Registration.delete", bool(cbs), sf, coro, detail="callback argument(s): %s" % [stmt_text(v, 40) for v in bound.values()])
+            oki = bool(sleeps) and bool(cbs) and inner.is_async \
+                and all(isinstance(icfg.parent.get(id(s_)), ast.Await) for s_ in sleeps) \
+                and all(any(icfg.dominates(icfg.loc1(s_), icfg.loc1(c)) and icfg.loc1(s_) != icfg.loc1(c) for s_ in sleeps) for c in cbs) \
                 and icfg.must_pass(icfg.entry, {icfg.loc1(c) for c in cbs})
             ctx.ob("the timer coroutine sleeps for its delay and only then invokes its callback", oki, inner, inner.node, construct="async def %s" % inner.name)
         # handle stored in self.timeout
@@ -1168,7 +1409,7 @@ def e(ctx):
     ctx.floor("returns of get_endpoints", len(rets), 1)
     for r in rets:
         v = resolve_local(ge.node, r.value) if r.value is not None else None
-        ctx.ob("get_endpoints returns exactly the values of _by_key", v is not None and match("self._by_key.values()", v) is not None, ge, r)
+        ctx.ob("get_endpoints returns exactly the values of _by_key", v is not None and match("self._by_key.values()", _strip_identity_wrappers(ge, v)) is not None, ge, r)
     for cls in ("EndpointLookupInterface", "ResourceLookupInterface"):
         fi = prog.func("cli.rd.%s.render_get" % cls)
         srcs = [c for c, _ in find("self.common_rd.get_endpoints()", fi.node, nested=True)]
@@ -1185,7 +1426,7 @@ def e(ctx):
             st = cfg_of(fi).nodes[cfg_of(fi).loc1(s)].ast
             tgt = st.targets[0].id if isinstance(st, ast.Assign) and len(st.targets) == 1 and isinstance(st.targets[0], ast.Name) else None
             pag = [c for c, _ in find("_paginate($c, $q)", fi.node)]
-            ok = tgt is not None and bool(pag) and all(_flows_from(fi, c.args[0], tgt) for c in pag)
+            ok = bool(pag) and all(K.contains(c.args[0], s) or (tgt is not None and _flows_from(fi, c.args[0], tgt)) for c in pag)
             ctx.ob("%s: the paginated candidates derive from the enumeration" % cls, ok, fi, s)
     REG = "cli.rd.CommonRD.Registration."
     hl = prog.func(REG + "get_host_link")
@@ -1194,8 +1435,10 @@ def e(ctx):
            construct="get_host_link", detail="reads %s" % sorted(r for r in reads if r.startswith("self.")))
     links = [c for c in calls_in(hl.node) if chain(c.func) == "Link"]
     for c in links:
-        kw = {k.arg: k.value for k in c.keywords}
-        ctx.ob("the host link carries base=self.base and href=self.href", chain(kw.get("base")) == "self.base" and chain(kw.get("href")) == "self.href", hl, c)
+        kw = {k.arg: resolve_local(hl.node, k.value) for k in c.keywords}
+        # link_header.Link(href, attr_pairs=None, **kwargs): the target may be given positionally
+        href = kw.get("href") if "href" in kw else (resolve_local(hl.node, c.args[0]) if c.args and not isinstance(c.args[0], ast.Starred) else None)
+        ctx.ob("the host link carries base=self.base and href=self.href", chain(kw.get("base")) == "self.base" and chain(href) == "self.href", hl, c)
     bl = prog.func(REG + "get_based_links")
     reads = {chain(n) for n in ast.walk(bl.node) if isinstance(n, ast.Attribute) and chain(n)}
     ctx.ob("based links are computed from the registration's current links and base", "self.links.links" in reads and "self.base" in reads, bl, bl.node, construct="get_based_links",
@@ -1207,7 +1450,24 @@ def e(ctx):
     hf = ci.methods.get("href")
     ctx.need(hf is not None, "Registration.href missing")
     hr = [n for n in walk_no_nested(hf.node) if isinstance(n, ast.Return) and n.value is not None]
-    ctx.ob("href is '/' + '/'.join(self.path)", len(hr) == 1 and match("'/' + '/'.join(self.path)", hr[0].value) is not None, hf, hr[0] if hr else hf.node)
+    want = _str_parts(ast.parse("'/' + '/'.join(self.path)", mode="eval").body)
+    ctx.ob("href is '/' + '/'.join(self.path)", len(hr) == 1 and _str_parts(resolve_local(hf.node, hr[0].value)) == want, hf, hr[0] if hr else hf.node)
+
+
+def _strip_identity_wrappers(fi, v):
+    """Drop wrappers that enumerate exactly the same elements: list(x), tuple(x), iter(x), and a
+    comprehension / generator `[r for r in x]` without filter whose element is its variable."""
+    for _ in range(4):
+        if isinstance(v, ast.Name):
+            v = resolve_local(fi.node, v)
+        if isinstance(v, ast.Call) and chain(v.func) in ("list", "tuple", "iter") and len(v.args) == 1 and not v.keywords:
+            v = v.args[0]
+        elif isinstance(v, (ast.ListComp, ast.GeneratorExp)) and len(v.generators) == 1 and not v.generators[0].ifs and isinstance(v.elt, ast.Name) \
+                and isinstance(v.generators[0].target, ast.Name) and v.generators[0].target.id == v.elt.id:
+            v = v.generators[0].iter
+        else:
+            break
+    return v
 
 
 def _flows_from(fi, e, src, depth=0):
@@ -1235,51 +1495,94 @@ def _flows_from(fi, e, src, depth=0):
 RESERVED = ("ep", "d", "page", "count", "href", "anchor", "rt")
 
 
-def _refused_keys(prog, fi, e, pol, qparam):
-    """Parameter names whose presence is excluded when atomic test e has truth value pol."""
-    def is_keys(x):
-        x = resolve_local(fi.node, x)
-        if isinstance(x, ast.Name) and x.id == qparam:
-            return True
-        return isinstance(x, ast.Call) and isinstance(x.func, ast.Attribute) and x.func.attr == "keys" and isinstance(x.func.value, ast.Name) and x.func.value.id == qparam and not x.args
-    def consts(x):
-        x = resolve_local(fi.node, x)
-        if isinstance(x, ast.Name):
-            try:
-                x = prog.module_const(fi.module.name, x.id)
-            except AnalysisError:
-                return None
-        if isinstance(x, (ast.Tuple, ast.List, ast.Set)) and all(isinstance(c, ast.Constant) and isinstance(c.value, str) for c in x.elts):
-            return {c.value for c in x.elts}
+def _self_effects(prog, fi, depth=0, seen=None):
+    """CFG nodes of fi that store to / mutate an attribute of `self`, touch the lifetime timer or run a
+    callback held by the registration.  A call `self.m(...)` of a method defined in rd.py counts only when
+    m (transitively) has such an effect; every other `self.<x>(...)` (constructor-bound callbacks, timer
+    methods) counts as an effect.  Receivers are resolved through single-assignment aliases."""
+    seen = seen if seen is not None else set()
+    if fi.qn in seen or depth > 4:
+        return [None]  # recursion: assume an effect
+    seen = seen | {fi.qn}
+    cfg = cfg_of(fi)
+
+    def self_attr(e):
+        e = _strip_subscripts(e)
+        if isinstance(e, ast.Name) and e.id != "self":
+            e = _strip_subscripts(resolve_local(fi.node, e))
+        return isinstance(e, ast.Attribute) and chain(e.value) == "self"
+
+    out = []
+    for nd in cfg.nodes:
+        if nd.kind not in ("stmt", "test", "return", "with", "for") or not cfg.is_reachable(nd.id):
+            continue
+        hit = False
+        for root in _node_roots(nd):
+            for n in walk_no_nested(root):
+                if isinstance(n, (ast.Assign, ast.AugAssign, ast.AnnAssign, ast.Delete)):
+                    tg = n.targets if isinstance(n, (ast.Assign, ast.Delete)) else [n.target]
+                    for t in tg:
+                        for tt in (t.elts if isinstance(t, (ast.Tuple, ast.List)) else [t]):
+                            if isinstance(tt, (ast.Attribute, ast.Subscript)) and self_attr(tt):
+                                hit = True
+                            elif isinstance(tt, ast.Subscript) and isinstance(_strip_subscripts(tt), ast.Name) and self_attr(_strip_subscripts(tt)):
+                                hit = True
+                if isinstance(n, ast.Call) and isinstance(n.func, ast.Attribute) and not is_log_call(n):
+                    recv = _strip_subscripts(n.func.value)
+                    if chain(recv) == "self":
+                        if n.func.attr in ("get",):
+                            continue
+                        m = prog.lookup_method(REGQN, n.func.attr) if _owner_class(fi) == REGQN else None
+                        if m is not None and _in_rd(m) and m.name not in TIMER_METHODS:
+                            if _self_effects(prog, m, depth + 1, seen):
+                                hit = True
+                        else:
+                            hit = True  # timer method or constructor-bound callback
+                    elif n.func.attr in MUT | {"cancel"} and self_attr(recv):
+                        hit = True
+        if hit:
+            out.append(nd)
+    return out
+
+
+def _raised_class(prog, fi, st):
+    """Qualified class name a `raise X(...)` / `raise X` statement raises, or None."""
+    if st.exc is None:
         return None
-    if isinstance(e, ast.Call) and chain(e.func) == "any" and len(e.args) == 1 and isinstance(e.args[0], (ast.GeneratorExp, ast.ListComp)) and not pol:
-        g = e.args[0]
-        if len(g.generators) == 1 and not g.generators[0].ifs and isinstance(g.generators[0].target, ast.Name) and is_keys(g.generators[0].iter):
-            var = g.generators[0].target.id
-            out = set()
-            for part in (g.elt.values if isinstance(g.elt, ast.BoolOp) and isinstance(g.elt.op, ast.Or) else [g.elt]):
-                if isinstance(part, ast.Compare) and len(part.ops) == 1 and isinstance(part.left, ast.Name) and part.left.id == var:
-                    if isinstance(part.ops[0], ast.In):
-                        out |= consts(part.comparators[0]) or set()
-                    elif isinstance(part.ops[0], ast.Eq) and isinstance(part.comparators[0], ast.Constant):
-                        out.add(part.comparators[0].value)
-            return out
-    if isinstance(e, ast.Compare) and len(e.ops) == 1 and isinstance(e.left, ast.Constant) and isinstance(e.left.value, str) and is_keys(e.comparators[0]):
-        if (isinstance(e.ops[0], ast.In) and not pol) or (isinstance(e.ops[0], ast.NotIn) and pol):
-            return {e.left.value}
-    # set(params) & {...}  /  {...}.intersection(params)  -- being empty
-    if not pol:
-        b = match("$s & $t", e)
-        if b is not None:
-            for x, y in ((b["s"], b["t"]), (b["t"], b["s"])):
-                xs = x.args[0] if isinstance(x, ast.Call) and chain(x.func) in ("set", "frozenset") and len(x.args) == 1 else x
-                if is_keys(xs) and consts(y):
-                    return consts(y)
-    return set()
+    e = st.exc.func if isinstance(st.exc, ast.Call) else st.exc
+    txt = chain(e)
+    if not txt:
+        return None
+    return Codes(prog).canon(prog.resolve_in_module(fi.module, txt))
+
+
+def _only_4xx_ends(prog, ka, depth=0):
+    """Under the assumption of `ka` every non-exceptional way out of the function is a `raise` of a
+    4.xx RenderableError (directly, or in a helper that received the dict and never completes)."""
+    raises, rets, falls, cuts = ka.normal_ends()
+    if rets or falls or not (raises or cuts) or depth > 3:
+        return False
+    codes = Codes(prog)
+    for nd in raises:
+        q = _raised_class(prog, ka.fi, nd.ast)
+        if q is None or not codes.is_4xx(q):
+            return False
+    for nd in cuts:
+        subs = [K.KeyAssume.of(prog, cq[0], cq[1], ka.key, ka.depth + 1) for call in K._unconditional_calls(nd.ast) for cq in [ka._callee_with_q(call)] if cq is not None]
+        subs = [s for s in subs if s.usable and not s.completes()]
+        if not subs or not all(_only_4xx_ends(prog, s, depth + 1) for s in subs[:1]):
+            return False
+    return True
 
 
 @R.clause("C20.f", "update_params refuses ep, d and the reserved lookup parameters before any store")
 def f(ctx):
+    """Decided by partial evaluation (K.KeyAssume): for every reserved name k, assume `k in
+    registration_parameters` at entry, discard the branch outcomes that contradict the assumption
+    (membership tests in every spelling, any()/all() over the keys, set intersections, loops over the
+    reserved names or over the keys whose iteration for k cannot complete, helpers that receive the
+    dictionary) and require that no store / timer call / callback remains reachable, and that every
+    remaining non-exceptional way out is a 4.xx raise."""
     prog = ctx.prog
     fi = prog.func("cli.rd.CommonRD.Registration.update_params")
     cfg = cfg_of(fi)
@@ -1287,78 +1590,25 @@ def f(ctx):
     ctx.need(len(p) == 3, "update_params signature changed")
     qparam = p[1]
     ctx.need(not writes_to_name(fi.node, qparam), "update_params rebinds its parameter dictionary")
-    # effects: attribute stores / mutations on self, timer and callback calls
-    effects = []
-    for nd in cfg.nodes:
-        if nd.kind not in ("stmt", "test", "return", "with", "for") or not cfg.is_reachable(nd.id):
-            continue
-        for root in _node_roots(nd):
-            hit = False
-            for n in walk_no_nested(root):
-                if isinstance(n, (ast.Assign, ast.AugAssign, ast.AnnAssign, ast.Delete)):
-                    tg = n.targets if isinstance(n, (ast.Assign, ast.Delete)) else [n.target]
-                    for t in tg:
-                        base = _strip_subscripts(t)
-                        if isinstance(base, ast.Attribute) and chain(base.value) == "self":
-                            hit = True
-                if isinstance(n, ast.Call) and isinstance(n.func, ast.Attribute):
-                    recv = _strip_subscripts(n.func.value)
-                    if chain(recv) == "self" and n.func.attr not in ("get",) and not is_log_call(n):
-                        hit = True  # self.<method/callback>(...)
-                    elif isinstance(recv, ast.Attribute) and chain(recv.value) == "self" and n.func.attr in MUT | {"cancel"}:
-                        hit = True
-            if hit:
-                effects.append(nd)
-    ctx.floor("stores and effect calls in update_params", len(effects), 6)
-    est = {k: set() for k in RESERVED}
-    for nd in cfg.nodes:
-        if nd.kind in ("T", "F") and not isinstance(nd.ast, (ast.For, ast.AsyncFor)):
-            for k in _refused_keys(prog, fi, nd.ast, nd.kind == "T", qparam):
-                if k in est:
-                    est[k].add(nd.id)
-    # guard wrappers, one level: a helper called with the parameter dictionary whose every normal
-    # return is behind refusal guards establishes the same facts at its call site
-    for nd in cfg.nodes:
-        if nd.kind != "stmt" or not isinstance(nd.ast, ast.Expr) or not isinstance(nd.ast.value, ast.Call):
-            continue
-        call = nd.ast.value
-        helper = None
-        if isinstance(call.func, ast.Attribute) and chain(call.func.value) == "self":
-            helper = prog.lookup_method(REGQN, call.func.attr)
-        elif isinstance(call.func, ast.Name):
-            helper = prog.funcs.get(fi.module.name + "." + call.func.id)
-        if helper is None or helper is fi or not _in_rd(helper):
-            continue
-        hp = params(helper)
-        bound = Effects.bind_args(call, hp)
-        hq = [pn for pn, a in bound.items() if isinstance(a, ast.Name) and a.id == qparam]
-        if len(hq) != 1 or writes_to_name(helper.node, hq[0]):
-            continue
-        hcfg = cfg_of(helper)
-        hest = {k: set() for k in RESERVED}
-        for hn in hcfg.nodes:
-            if hn.kind in ("T", "F") and not isinstance(hn.ast, (ast.For, ast.AsyncFor)):
-                for k in _refused_keys(prog, helper, hn.ast, hn.kind == "T", hq[0]):
-                    if k in hest:
-                        hest[k].add(hn.id)
-        for k in RESERVED:
-            if hest[k] and hcfg.exit not in hcfg.reach({hcfg.entry}, avoid=hest[k], skip_labels=("exc",)):
-                est[k].add(nd.id)
+    effects = [nd for nd in _self_effects(prog, fi) if nd is not None]
+    ctx.floor("stores and effect calls in update_params", len(effects), 4)
     for k in RESERVED:
-        bad = [nd for nd in effects if not est[k] or nd.id in cfg.reach({cfg.entry}, avoid=est[k])]
+        ka = K.KeyAssume.of(prog, fi, qparam, k)
+        live = ka.reachable()
+        bad = [nd for nd in effects if nd.id in live]
+        if bad and not ka.avoid() and not ka.cut() and not ka._invalid():
+            # nothing at all was decided by the assumption.  If the function never mentions the name, the
+            # parameter is simply not refused (violation below); if it does, it is tested in a way this rule
+            # cannot interpret (e.g. through a flag variable): fail closed instead of guessing
+            mentions = [n for n in ast.walk(fi.node) if (isinstance(n, ast.Constant) and n.value == k)
+                        or (isinstance(n, (ast.Name, ast.Attribute)) and k in (K.const_strs(prog, fi, n) or ()))]
+            ctx.need(not mentions, "update_params mentions parameter name %r (%s) but no branch outcome follows from its presence in the "
+                     "parameter dictionary: test not interpretable" % (k, stmt_text(mentions[0], 40) if mentions else ""))
         ctx.ob("a request carrying parameter %r is refused before update_params stores anything" % k, not bad, fi, _node_construct(bad[0]) if bad else fi.node,
                construct=("unguarded: " + stmt_text(_node_construct(bad[0]), 80)) if bad else "update_params refuses %r" % k,
-               detail="%d unprotected effect(s)" % len(bad) if bad else None)
-    # the refusing side answers 4.xx
-    codes = Codes(prog)
-    for k in ("ep", "d"):
-        for pid in est[k]:
-            nd = cfg.nodes[pid]
-            other = [x for x in cfg.nodes if x.kind in ("T", "F") and x.ast is nd.ast and x.id != pid]
-            for o in other:
-                exits = [cfg.nodes[x] for x in cfg.reach({o.id}, skip_labels=("exc",)) if cfg.nodes[x].kind in ("raise", "return")]
-                ok = bool(exits) and all(x.kind == "raise" and x.ast.exc is not None and codes.is_4xx(codes.canon(prog.resolve_in_module(fi.module, chain(x.ast.exc.func if isinstance(x.ast.exc, ast.Call) else x.ast.exc) or "?"))) for x in exits[:1])
-                ctx.ob("the refusal of %r is a 4.xx error" % k, ok, fi, nd.ast, construct="refusal of %r" % k)
+               detail="%d unprotected effect(s)" % len(bad) if bad else "decided by: %s" % "; ".join(sorted({stmt_text(_node_construct(n), 50) for n in ka.refuting()}))[:200])
+        if not bad:
+            ctx.ob("the refusal of %r is a 4.xx error" % k, _only_4xx_ends(prog, ka), fi, fi.node, construct="refusal of %r" % k)
 
 
 # ---------------------------------------------------------------------------
@@ -1367,66 +1617,43 @@ def f(ctx):
 def g_replacement(ctx):
     """Added after an independently written breaking change overwrote the table entries of a re-registered endpoint
     without calling the old registration's delete(): its lifetime task stayed armed and, on firing, removed the
-    live re-registration.  Necessary condition: in initialize_endpoint, on every non-exceptional path from a
-    successful lookup of the existing registration to the insertion of the new one, the old registration's
-    delete() is called.  Tests of `old is None / is not None` are refined by nullness: on those paths `old` holds the
-    looked-up registration (every other definition of `old` lies in the not-found handler)."""
-    fi = ctx.prog.func("cli.rd.CommonRD.initialize_endpoint")
+    live re-registration.  Necessary condition: in initialize_endpoint every non-exceptional path from the entry
+    to the insertion of the new registration under its key either calls delete() on the registration that was
+    looked up under that key, or passes a branch outcome that establishes that no registration exists under the
+    key (`_absence_fact`: KeyError handler of `_by_key[key]`, `key not in _by_key`, `<looked-up> is None`, in any
+    spelling and nesting)."""
+    prog = ctx.prog
+    fi = prog.func("cli.rd.CommonRD.initialize_endpoint")
     cfg = cfg_of(fi)
-    looks = []
-    for n in walk_no_nested(fi.node):
-        if isinstance(n, ast.Assign) and len(n.targets) == 1 and isinstance(n.targets[0], ast.Name):
-            v = n.value
-            if (isinstance(v, ast.Subscript) and chain(v.value) == "self._by_key") or (isinstance(v, ast.Call) and isinstance(v.func, ast.Attribute) and v.func.attr == "get" and chain(v.func.value) == "self._by_key"):
-                looks.append(n)
-    ctx.ob("initialize_endpoint looks the endpoint's key up in _by_key", len(looks) == 1, fi, looks[0] if looks else fi.node, construct="initialize_endpoint: lookup of the existing registration")
-    if len(looks) != 1:
-        return
-    lk = looks[0]
-    old = lk.targets[0].id
-    ln = cfg.loc1(lk)
-    uses_get = isinstance(lk.value, ast.Call)
-    ins = [n for k, n in stores_to(fi.node, "self._by_key", nested=False) if k == "setitem"]
-    ctx.floor("insertions into _by_key", len(ins), 1)
-    dels = [cfg.loc1(c) for c, b in find("%s.delete()" % old, fi.node)]
-    # nullness refinement
-    hnodes = [n.id for n in cfg.nodes if n.kind == "handler"]
-    other_writes = [w for w in writes_to_name(fi.node, old) if w is not lk]
-    confined = all(any(cfg.dominates(h, cfg.loc1(w)) for h in hnodes) for w in other_writes)
-    none_side = set()
-    if confined or uses_get:
-        for n in cfg.nodes:
-            if n.kind in ("T", "F") and n.ast is not None:
-                if (match("%s is None" % old, n.ast) is not None and n.kind == "T") or (match("%s is not None" % old, n.ast) is not None and n.kind == "F") or \
-                   (isinstance(n.ast, ast.Name) and n.ast.id == old and n.kind == "F"):
-                    none_side.add(n.id)
-    for i_ in ins:
-        inn = cfg.loc1(i_)
-        if uses_get:
-            # found <=> old is not None: start from those branch outcomes
-            starts = [n.id for n in cfg.nodes if n.kind in ("T", "F") and n.ast is not None and ((match("%s is not None" % old, n.ast) is not None and n.kind == "T") or (match("%s is None" % old, n.ast) is not None and n.kind == "F") or (isinstance(n.ast, ast.Name) and n.ast.id == old and n.kind == "T"))]
-            ok = bool(dels) and bool(starts) and all(inn not in cfg.reach({st}, avoid=set(dels) | none_side, skip_labels=("exc",)) for st in starts) and \
-                any(inn in cfg.reach({st}, skip_labels=("exc",)) for st in starts)
-        else:
-            r = cfg.reach({ln}, avoid=set(dels) | none_side, skip_labels=("exc",))
-            ok = bool(dels) and inn not in r
-        ctx.ob("when the endpoint is already registered, the old registration is deleted before the new one is entered under its key", ok, fi, i_,
-               detail="%d delete() site(s) on the old registration" % len(dels))
-
-
-def _fresh_container(e):
-    """Does the expression create a new container (so that mutating it cannot reach stored state)?"""
-    if isinstance(e, (ast.List, ast.Dict, ast.Set, ast.ListComp, ast.DictComp, ast.SetComp, ast.Tuple)):
-        return True
-    if isinstance(e, ast.Call) and chain(e.func) in ("list", "dict", "set", "sorted", "copy.copy", "copy.deepcopy", "tuple"):
-        return True
-    if isinstance(e, ast.Call) and isinstance(e.func, ast.Attribute) and e.func.attr == "copy":
-        return True
-    if isinstance(e, ast.BinOp) and isinstance(e.op, ast.Add):
-        return True  # list + list builds a new list
-    if isinstance(e, ast.Subscript) and isinstance(e.slice, ast.Slice):
-        return True
-    return False
+    ins_k, _, _ = _index_ops(fi, "_by_key")
+    ctx.floor("insertions into _by_key", len(ins_k), 1)
+    keys = [dump(resolve_local(fi.node, k)) for _, k, _ in ins_k]
+    looks = [n for n in walk_no_nested(fi.node) if isinstance(n, (ast.Subscript, ast.Call)) and isinstance(getattr(n, "ctx", ast.Load()), ast.Load) and _by_key_read(fi, n, keys)]
+    looks += [n for n in walk_no_nested(fi.node) if isinstance(n, ast.Compare) and (lambda a: a is not None and dump(resolve_local(fi.node, a[0])) in keys)(K.absent_test(fi, n, "self._by_key"))]
+    ctx.ob("initialize_endpoint looks the endpoint's key up in _by_key", len(looks) >= 1, fi, looks[0] if looks else fi.node, construct="initialize_endpoint: lookup of the existing registration")
+    # delete() on the looked-up registration
+    dels = []
+    for c in calls_in(fi.node):
+        if not (isinstance(c.func, ast.Attribute) and c.func.attr == "delete" and not c.args):
+            continue
+        recv = c.func.value
+        nid = cfg.loc1(c)
+        if isinstance(recv, ast.Name):
+            defs = [o for o in reaching_defs(fi, recv.id, nid) if not (isinstance(o, ast.Assign) and isinstance(o.value, ast.Constant) and o.value.value is None)]
+            if defs and recv.id not in params(fi) and all(isinstance(o, ast.Assign) and len(o.targets) == 1 and _by_key_read(fi, o.value, keys) for o in defs):
+                dels.append(nid)
+        elif _by_key_read(fi, recv, keys):
+            dels.append(nid)
+    absent = set(_keyerror_handlers(fi, cfg, keys))
+    for n in cfg.nodes:
+        if n.kind in ("T", "F") and n.ast is not None and not isinstance(n.ast, (ast.For, ast.AsyncFor)):
+            at = cfg.locate(n.ast)
+            if at and _absence_fact(prog, fi, cfg, n.ast, n.kind == "T", at[0], keys):
+                absent.add(n.id)
+    live = cfg.reach({cfg.entry}, avoid=set(dels) | absent, skip_labels=("exc",), include_src=True)
+    for i_, _, _ in ins_k:
+        ctx.ob("when the endpoint is already registered, the old registration is deleted before the new one is entered under its key", bool(dels) and cfg.loc1(i_) not in live, fi, i_,
+               detail="%d delete() site(s) on the old registration, %d branch outcome(s) establish that none exists" % (len(dels), len(absent)))
 
 
 @R.clause("C20.h", "lookups only read: the link computations never mutate a container owned by a registration")
@@ -1434,61 +1661,51 @@ def h_readonly(ctx):
     """Added after an independently written breaking change let get_based_links append the computed anchor to
     `link.attr_pairs` itself (an alias instead of a copy): every resource lookup then changed the stored links, which
     later lookups (after a base change) and GETs of the registration reflected.  Necessary condition: in the two link
-    computations every in-place mutation targets a container created in that call."""
-    MUT = {"append", "extend", "insert", "update", "remove", "pop", "clear", "setdefault", "sort", "reverse", "add", "discard"}
-    n = 0
+    computations -- including their closures, lambdas, comprehensions and the rd.py functions they call -- every
+    in-place mutation (mutating method, item / attribute store or delete, `x += [..]`) acts on an object created
+    in that call (K.Freshness).  A computation without any in-place mutation satisfies this trivially."""
+    total = 0
     for short in ("cli.rd.CommonRD.Registration.get_based_links", "cli.rd.CommonRD.Registration.get_host_link"):
         fi = ctx.prog.func(short)
-        bad = []
-        for c in calls_in(fi.node):
-            if isinstance(c.func, ast.Attribute) and c.func.attr in MUT:
-                n += 1
-                recv = c.func.value
-                if isinstance(recv, ast.Name):
-                    ws = writes_to_name(fi.node, recv.id)
-                    vals = [w.value for w in ws if isinstance(w, ast.Assign)]
-                    if not ws or len(vals) != len(ws) or not all(_fresh_container(v) for v in vals):
-                        bad.append((c, [stmt_text(v, 50) for v in vals]))
-                else:
-                    bad.append((c, [stmt_text(recv, 50)]))
-        for st in walk_no_nested(fi.node):
-            if isinstance(st, (ast.Assign, ast.AugAssign, ast.Delete)):
-                tgts = st.targets if not isinstance(st, ast.AugAssign) else [st.target]
-                for t in tgts:
-                    if isinstance(t, (ast.Attribute, ast.Subscript)):
-                        base = t
-                        while isinstance(base, (ast.Attribute, ast.Subscript)):
-                            base = base.value
-                        if isinstance(base, ast.Name):
-                            ws = writes_to_name(fi.node, base.id)
-                            vals = [w.value for w in ws if isinstance(w, ast.Assign)]
-                            if base.id == "self" or not ws or not all(_fresh_container(v) or (isinstance(v, ast.Call) and (chain(v.func) or "").split(".")[-1] in ("Link", "LinkFormat")) for v in vals):
-                                bad.append((st, ["store through %s" % base.id]))
-        for c, why in bad:
-            ctx.ob("a lookup computes its links without modifying what the registration stores", False, fi, c, detail="mutated object defined as %s" % why)
-        if not bad:
-            ctx.ob("%s mutates only containers it created itself" % fi.name, True, fi, fi.node, construct=fi.name)
-    ctx.floor("in-place mutations in the link computations", n, 2)
+        FR = K.Freshness(ctx.prog)
+        FR.analyse(fi)
+        total += FR.sites
+        for bfi, node, why in FR.bad:
+            ctx.ob("a lookup computes its links without modifying what the registration stores", False, bfi, node, detail="%s: the mutated object is not known to be created in this call" % why)
+        if not FR.bad:
+            ctx.ob("%s mutates only containers it created itself" % fi.name, True, fi, fi.node, construct=fi.name, detail="%d in-place mutation site(s) in %d function(s)" % (FR.sites, len(FR.done)))
+        reads = {chain(n) for n in ast.walk(fi.node) if isinstance(n, ast.Attribute) and chain(n)}
+        ctx.need(any(r.startswith("self.") for r in reads), "%s no longer reads the registration" % fi.name)
+    ctx.note("%d in-place mutation site(s) in the link computations" % total)
 
 
 @R.clause("C20.i", "the link-format serialiser keeps empty attribute values: an attribute is written without '=value' only when its value is None")
 def i_linkformat(ctx):
     """Added after an independently written breaking change tested `not value` instead of `value is None` in
-    util.linkformat.Link.__str__: parameters written as `tag=` came back from lookups as the value-less flag `tag`."""
+    util.linkformat.Link.__str__: parameters written as `tag=` came back from lookups as the value-less flag `tag`.
+    Decided on every place where Link.__str__ (or a closure / lambda of it) renders one (key, value) element of
+    self.attr_pairs (K.pair_contexts: loop, comprehension, pair formatter called with the pair, starmap): a
+    rendering unit -- statement, conditional-expression arm, comprehension element -- that mentions the key but
+    not the value is the value-less form and must be conditional on `value is None` (dominating branch outcomes
+    of the statement, conditional-expression tests, comprehension filters; any spelling of the comparison)."""
     outer = ctx.prog.func("util.linkformat.Link.__str__")
-    inner = None
-    for q, f in ctx.prog.funcs.items():
-        if f.parent is outer and len(f.node.args.args) == 2:
-            inner = f
-    ctx.need(inner is not None, "Link.__str__ has no (key, value) pair formatter")
-    k, v = [a.arg for a in inner.node.args.args]
-    cfg = cfg_of(inner)
-    rets = [r for r in walk_no_nested(inner.node) if isinstance(r, ast.Return)]
-    bare = [r for r in rets if isinstance(r.value, ast.Name) and r.value.id == k]
-    ctx.ob("the value-less form exists (flags such as `obs`)", bool(bare), inner, inner.node, construct="Link.__str__ pair formatter")
-    for r in bare:
-        ctx.ob("the value-less form is chosen exactly for the value None (an empty string keeps its `=\"\"`)", guarded_by(cfg, cfg.loc1(r), "%s is None" % v, True), inner, r,
-               detail="guards: %s" % [(stmt_text(e), p) for e, p in guard_exprs(cfg, cfg.loc1(r))])
+    ctxs = K.pair_contexts(ctx.prog, outer)
+    ctx.need(bool(ctxs), "Link.__str__: no place found where the (key, value) pairs of self.attr_pairs are rendered")
+    bare = []
+    for info in ctxs:
+        scope, k, v, roots, base = info
+        for unit, stmt, conds in K.valueless_emissions(info):
+            allc = list(conds)
+            if scope is not None and stmt is not None:
+                cfg = cfg_of(scope)
+                ids = cfg.locate(stmt)
+                if ids:
+                    allc += guard_exprs(cfg, ids[0])
+            bare.append((scope or outer, unit, v, allc))
+    ctx.ob("the value-less form exists (flags such as `obs`)", bool(bare), outer, outer.node, construct="Link.__str__ pair formatter")
+    for scope, unit, v, conds in bare:
+        ctx.ob("the value-less form is chosen exactly for the value None (an empty string keeps its `=\"\"`)", K.none_atom_holds(conds, v), scope, unit,
+               detail="conditions: %s" % [(stmt_text(e, 40), p) for e, p in conds])
 
 
 F = "aiocoap/cli/rd.py"
@@ -1535,3 +1752,11 @@ R.seed("C20.g", F, "        if oldreg is not None:\n            oldreg.delete()\
 
 R.seed("C20.h", F, "                    data = link.attr_pairs + [[\"anchor\", urljoin(href, \"/\")]]", "                    data = link.attr_pairs\n                    data.append([\"anchor\", urljoin(href, \"/\")])", "lookup appends to the registration's stored attribute list")
 R.seed("C20.i", "aiocoap/util/linkformat.py", "            if value is None:\n                return key", "            if not value:\n                return key", "empty attribute values serialised as value-less flags")
+
+# seeds for the generalised (semantic) clause forms
+R.seed("C20.f", F, "if any(k in (\"ep\", \"d\") for k in registration_parameters.keys()):", "if not is_initial and any(k in (\"ep\", \"d\") for k in registration_parameters.keys()):", "ep / d only refused on updates: the refusal no longer follows from the parameter's presence")
+R.seed("C20.f", F, "                raise error.BadRequest(\"Unsuitable parameter for registration\")\n", "                raise error.InternalServerError(\"Unsuitable parameter for registration\")\n", "reserved lookup parameters answered with 5.00 instead of 4.xx")
+R.seed("C20.c", F, "            if path not in self._by_path:\n                return path", "            if path not in self._by_path or i > 9999:\n                return path", "a used location is handed out once the counter is large")
+R.seed("C20.h", F, "                    data = link.attr_pairs + [[\"anchor\", urljoin(href, \"/\")]]", "                    data = link.attr_pairs\n                    data += [[\"anchor\", urljoin(href, \"/\")]]", "lookup extends the registration's stored attribute list in place (+=)")
+R.seed("C20.i", "aiocoap/util/linkformat.py", "            if value is None:\n                return key", "            if value is None or value == \"\":\n                return key", "empty string treated like a missing value")
+R.seed("C20.b", F, "            del self._by_path[path]\n            del self._by_key[key]\n", "            del self._by_path[path]\n            self._by_key.pop((ep, None), None)\n", "delete callback pops another key (pop spelling)")
